@@ -12,6 +12,7 @@ import (
 	"path/filepath"
 	"regexp"
 	"runtime/debug"
+	"runtime/metrics"
 	"runtime/pprof"
 	"sort"
 	"strings"
@@ -63,7 +64,7 @@ func TestVerif_C11(t *testing.T) {
 	defer rec.Done()
 
 	root := filepath.Join(rec.Work, "c11world")
-	nSubj := rec.N(3, 45)
+	nSubj := rec.N(3, 4)
 	w, err := buildWorld(root, rec.Seed, nSubj)
 	if err != nil {
 		rec.Violation("harness/world", err.Error(), nil)
@@ -95,7 +96,7 @@ func TestVerif_C11(t *testing.T) {
 
 	ch := make(chan job)
 	var wg sync.WaitGroup
-	for i := 0; i < 10; i++ {
+	for i := 0; i < 12; i++ {
 		wg.Add(1)
 		go func() {
 			defer wg.Done()
@@ -113,8 +114,10 @@ func TestVerif_C11(t *testing.T) {
 }
 
 const (
-	exitHang      = 97
-	caseBudgetEnv = "C11_CASE_BUDGET_MS"
+	exitHang       = 97
+	exitRunaway    = 98
+	caseBudgetEnv  = "C11_CASE_BUDGET_MS"
+	allocBudgetEnv = "C11_ALLOC_BUDGET_MIB"
 )
 
 type parent struct {
@@ -150,15 +153,33 @@ type loggedCase struct {
 	Op    string `json:"op,omitempty"`
 }
 
-func (p *parent) env(budgetMS int) ([]string, string) {
+// env prepares one child run: the batch file (the corruptions [start,end) of subject k,
+// so that children do not enumerate), the side channel and the case budget.
+func (p *parent) env(k, start, end, budgetMS int) (env []string, side string, cleanup func()) {
 	p.mu.Lock()
 	p.nside++
-	side := filepath.Join(p.rec.Work, fmt.Sprintf("side-%d.jsonl", p.nside))
+	n := p.nside
 	p.mu.Unlock()
-	return []string{"C11_WORLD=" + p.root, "C11_SIDE=" + side, "GOMAXPROCS=3", fmt.Sprintf("%s=%d", caseBudgetEnv, budgetMS), "SRC_DEVELOPMENT=false"}, side
+	side = filepath.Join(p.rec.Work, fmt.Sprintf("side-%d.jsonl", n))
+	bf := filepath.Join(p.rec.Work, fmt.Sprintf("batch-%d.json", n))
+	b, err := json.Marshal(batchFile{Subj: k, Start: start, Muts: p.muts[k][start:end]})
+	if err == nil {
+		err = os.WriteFile(bf, b, 0o644)
+	}
+	if err != nil {
+		p.rec.Violation("harness/batch file", err.Error(), nil)
+	}
+	return []string{"C11_WORLD=" + p.root, "C11_SIDE=" + side, "C11_BATCH=" + bf, "GOMAXPROCS=2", fmt.Sprintf("%s=%d", caseBudgetEnv, budgetMS), "SRC_DEVELOPMENT=false"}, side,
+		func() { os.Remove(bf); os.Remove(side) }
 }
 
-func (p *parent) caseBudgetMS() int { return p.rec.N(6000, 15000) }
+type batchFile struct {
+	Subj  int        `json:"subj"`
+	Start int        `json:"start"`
+	Muts  []mutation `json:"muts"`
+}
+
+func (p *parent) caseBudgetMS() int { return p.rec.N(2000, 5000) }
 
 func (p *parent) witness(k, i int, extra map[string]any) map[string]any {
 	m := &p.muts[k][i]
@@ -225,7 +246,6 @@ func panicClass(msg string) string {
 
 func (p *parent) readSide(path string) {
 	b, err := os.ReadFile(path)
-	os.Remove(path)
 	if err != nil {
 		return
 	}
@@ -249,9 +269,10 @@ func (p *parent) runBatch(k, start, end int) {
 	rec := p.rec
 	watchdog := time.Duration(rec.N(240, 900)) * time.Second
 	for start < end {
-		env, side := p.env(p.caseBudgetMS())
+		env, side, cleanup := p.env(k, start, end, p.caseBudgetMS())
 		res := rec.RunChild("TestVerif_C11", "batch", fmt.Sprintf("%d:%d:%d", k, start, end), env, watchdog)
 		p.readSide(side)
+		cleanup()
 		if !res.TimedOut && !res.Crashed() {
 			return
 		}
@@ -265,6 +286,11 @@ func (p *parent) runBatch(k, start, end int) {
 			rec.Violation("harness/child died outside a case", res.CrashClass(), map[string]any{"subject": k, "start": start, "end": end, "last_case": res.LastCase, "tail": clip(res.Tail, 4000)})
 			return
 		}
+		// the child's own record of the case it died in is lost
+		fm := &p.muts[k][lc.I]
+		rec.Count("corruptions", 1)
+		rec.Count("corruptions_"+fm.Kind, 1)
+		rec.Case(p.subj[k].Name+"/"+fm.ID, true, nil)
 		switch {
 		case res.TimedOut:
 			// the outer watchdog: the in-child budget did not fire, so this is the box, not the case
@@ -272,6 +298,8 @@ func (p *parent) runBatch(k, start, end int) {
 			rec.Note("inconclusive", fmt.Sprintf("watchdog fired on %s case %d %s in phase %s", p.subj[k].Name, lc.I, lc.ID, lc.Phase))
 		case res.Exit == exitHang:
 			p.hang(k, lc, res)
+		case res.Exit == exitRunaway:
+			p.runaway(k, lc, res)
 		default:
 			sig := lc.Phase + "/" + crashSig(res)
 			rec.Count("cases_that_killed_the_process", 1)
@@ -283,6 +311,27 @@ func (p *parent) runBatch(k, start, end int) {
 	}
 }
 
+// runaway: the child's monitor ended a case that had allocated more than its budget
+// and was still running.
+func (p *parent) runaway(k int, lc loggedCase, res kit.ChildResult) {
+	rec := p.rec
+	site := "?"
+	if m := hangSiteRe.FindStringSubmatch(res.Tail); m != nil {
+		site = m[1]
+	}
+	sig := lc.Phase + "/runaway-allocation/" + site
+	why := ""
+	if m := giveUpRe.FindStringSubmatch(res.Tail); m != nil {
+		why = m[1]
+	}
+	rec.Count("cases_with_runaway_allocation", 1)
+	rec.Count("killed_by_kind_"+p.muts[k][lc.I].Kind, 1)
+	rec.Violation(sig, fmt.Sprintf("phase %s%s on the %d-byte shard %s with corruption %s %s and was still running in %s: allocation is driven by the corrupt content, the process runs out of memory", lc.Phase, opText(lc.Op), len(p.subj[k].Bytes), p.w.Subjects[k].File, lc.ID, why, site),
+		p.witness(k, lc.I, map[string]any{"phase": lc.Phase, "op": lc.Op, "goroutines_at_give_up": clip(res.Tail, 6000)}))
+}
+
+var giveUpRe = regexp.MustCompile(`(?m)^C11-GIVE-UP [^:]*: (.*)$`)
+
 func opText(op string) string {
 	if op == "" {
 		return ""
@@ -290,7 +339,7 @@ func opText(op string) string {
 	return " (" + op + ")"
 }
 
-var hangSiteRe = regexp.MustCompile(`(?m)^C11-HANG-SITE (.*)$`)
+var hangSiteRe = regexp.MustCompile(`(?m)^C11-SITE (.*)$`)
 
 // hang: the child gave up on a case after its budget. Re-run the case alone with 20x
 // the budget; only a case that does not finish then is reported.
@@ -309,9 +358,10 @@ func (p *parent) hang(k int, lc loggedCase, res kit.ChildResult) {
 		return
 	}
 	budget := 20 * p.caseBudgetMS()
-	env, side := p.env(budget)
-	r2 := rec.RunChild("TestVerif_C11", "single", fmt.Sprintf("%d:%d:%d", k, lc.I, lc.I+1), env, time.Duration(budget)*time.Millisecond+60*time.Second)
+	env, side, cleanup := p.env(k, lc.I, lc.I+1, budget)
+	r2 := rec.RunChild("TestVerif_C11", "single", fmt.Sprintf("%d:%d:%d", k, lc.I, lc.I+1), env, 10*time.Duration(budget)*time.Millisecond+60*time.Second)
 	p.readSide(side)
+	cleanup()
 	switch {
 	case r2.Exit == exitHang || r2.TimedOut:
 		if m := hangSiteRe.FindStringSubmatch(r2.Tail); m != nil {
@@ -322,8 +372,14 @@ func (p *parent) hang(k int, lc loggedCase, res kit.ChildResult) {
 		p.hangs[sig] = true
 		p.mu.Unlock()
 		rec.Count("cases_that_hang", 1)
-		rec.Violation(sig, fmt.Sprintf("phase %s%s does not finish within %d s (alone in a fresh process; a healthy shard of this size takes milliseconds) on shard %s with corruption %s", lc.Phase, opText(lc.Op), budget/1000, p.w.Subjects[k].File, lc.ID),
+		rec.Violation(sig, fmt.Sprintf("phase %s%s does not finish within %d s of CPU time (alone in a fresh process; a healthy shard of this size takes milliseconds) on shard %s with corruption %s", lc.Phase, opText(lc.Op), budget/1000, p.w.Subjects[k].File, lc.ID),
 			p.witness(k, lc.I, map[string]any{"phase": lc.Phase, "op": lc.Op, "budget_ms": budget, "goroutines_at_give_up": clip(r2.Tail, 6000)}))
+	case r2.Exit == exitRunaway:
+		var l2 loggedCase
+		if json.Unmarshal([]byte(r2.LastCase), &l2) != nil {
+			l2 = lc
+		}
+		p.runaway(k, l2, r2)
 	case r2.Crashed():
 		var l2 loggedCase
 		_ = json.Unmarshal([]byte(r2.LastCase), &l2)
@@ -355,9 +411,9 @@ func (p *parent) confirmLoadPanics() {
 		go func() {
 			defer wg.Done()
 			defer func() { <-sem }()
-			env, side := p.env(20 * p.caseBudgetMS())
+			env, _, cleanup := p.env(r.Subj, r.I, r.I+1, 20*p.caseBudgetMS())
 			res := rec.RunChild("TestVerif_C11", "confirm", fmt.Sprintf("%d:%d:%d", r.Subj, r.I, r.I+1), env, 10*time.Minute)
-			os.Remove(side)
+			cleanup()
 			switch {
 			case res.TimedOut || res.Exit == exitHang:
 				rec.Count("load_panic_confirmation_timed_out_inconclusive", 1)
@@ -383,28 +439,42 @@ type child struct {
 	w        *worldFile
 	k        int
 	s        *subjectSpec
-	muts     []mutation
+	muts     []mutation // the child's slice of the subject's list
+	base     int        // index of muts[0] in the subject's list
 	work     string
+	caseLog  *os.File
 	side     *os.File
 	sideSeen map[string]bool
 	healthyN map[string]bool
 	healthyI map[uint32]bool
 	full     []op
 	reduced  []op
+	// quick tier economies
+	directOps     []op
+	rejectedEvery int
 	baseline map[string]opResult
 
-	budget time.Duration
-	tmu    sync.Mutex
-	timer  *time.Timer
-	cur    loggedCase
+	// the in-child monitor: time and allocation budget of the running case
+	budget      time.Duration
+	allocBudget uint64
+	tmu         sync.Mutex
+	armed       bool
+	caseStart   time.Time
+	cpuBase     time.Duration
+	allocBase   uint64
+	cur         loggedCase
 }
 
 func c11Child(rec *kit.Rec, mode, arg string) {
 	// runaway allocation must be a dead child, not a dead box
-	lim := syscall.Rlimit{Cur: 4 << 30, Max: 4 << 30}
-	_ = syscall.Setrlimit(syscall.RLIMIT_AS, &lim)
-	debug.SetMemoryLimit(3 << 30)
+	capAddressSpace(1 << 30)
 	log.SetOutput(io.Discard) // the loader logs every rejected shard
+	if pp := os.Getenv("C11_CPUPROF"); pp != "" { // debugging aid for stalled cases
+		if f, err := os.Create(pp); err == nil {
+			_ = pprof.StartCPUProfile(f)
+			defer pprof.StopCPUProfile()
+		}
+	}
 
 	var k, start, end int
 	if _, err := fmt.Sscanf(arg, "%d:%d:%d", &k, &start, &end); err != nil {
@@ -417,12 +487,22 @@ func c11Child(rec *kit.Rec, mode, arg string) {
 		rec.Violation("harness/world", err.Error(), nil)
 		return
 	}
-	s, muts, err := loadSubject(root, w, k, rec.Seed, rec.Quick())
+	var bf batchFile
+	bb, err := os.ReadFile(os.Getenv("C11_BATCH"))
+	if err == nil {
+		err = json.Unmarshal(bb, &bf)
+	}
+	if err != nil || bf.Subj != k || bf.Start != start || bf.Start+len(bf.Muts) != end {
+		rec.Violation("harness/batch file", fmt.Sprintf("%v (arg %s)", err, arg), nil)
+		return
+	}
+	sb, err := os.ReadFile(filepath.Join(root, "subjects", w.Subjects[k].Name, w.Subjects[k].File))
 	if err != nil {
 		rec.Violation("harness/subject", err.Error(), nil)
 		return
 	}
-	c := &child{rec: rec, root: root, w: w, k: k, s: s, muts: muts, work: rec.Work, sideSeen: map[string]bool{}, healthyN: map[string]bool{}, healthyI: map[uint32]bool{}}
+	s := &subjectSpec{Name: w.Subjects[k].Name, Bytes: sb}
+	c := &child{rec: rec, root: root, w: w, k: k, s: s, muts: bf.Muts, base: bf.Start, work: rec.Work, sideSeen: map[string]bool{}, healthyN: map[string]bool{}, healthyI: map[uint32]bool{}}
 	for i, n := range healthyNames {
 		c.healthyN[n] = true
 		c.healthyI[healthyIDs[i]] = true
@@ -433,82 +513,243 @@ func c11Child(rec *kit.Rec, mode, arg string) {
 	ms := 6000
 	fmt.Sscanf(os.Getenv(caseBudgetEnv), "%d", &ms)
 	c.budget = time.Duration(ms) * time.Millisecond
+	mib := 48
+	fmt.Sscanf(os.Getenv(allocBudgetEnv), "%d", &mib)
+	c.allocBudget = uint64(mib) << 20
+	go c.monitor()
 	c.full, c.reduced = battery()
+	c.directOps, c.rejectedEvery = c.full, 1
+	if rec.Quick() {
+		// quick tier: the battery without the entries that repeat a code path
+		extra := map[string]bool{"content regexp word chunks": true, "file name regexp chunks": true, "branch exact": true, "repo set": true, "type:file": true, "everything whole": true,
+			"language": true, "negation": true, "bm25": true, "limits": true, "list all, repos": true, "list repo ids": true}
+		var keep []op
+		for _, o := range c.full {
+			if !extra[o.Name] {
+				keep = append(keep, o)
+			}
+		}
+		c.full = keep
+		c.rejectedEvery = 8
+		c.directOps = nil
+		for i, o := range c.full {
+			if i%3 == 0 || o.Kind == "list" && i%2 == 0 {
+				c.directOps = append(c.directOps, o)
+			}
+		}
+	}
 	_ = os.MkdirAll(c.work, 0o755)
 	defer os.RemoveAll(c.work)
 
 	if mode == "confirm" {
-		c.confirm(start)
+		c.confirm(0)
 		return
 	}
 	if err := c.makeBaseline(); err != nil {
 		rec.Violation("harness/baseline", err.Error(), nil)
 		return
 	}
-	for i := start; i < end && i < len(muts); i++ {
+	// the evidence of a child that dies is lost unless it was flushed: the cases are
+	// recorded in chunks, each with a record stream of its own that is closed (and so
+	// merged by the parent) before the next chunk starts
+	const chunk = 8
+	for i := range c.muts {
+		if i%chunk == 0 {
+			c.rec = kit.Open("C11")
+		}
 		c.oneCase(i)
+		if i%chunk == chunk-1 || i == len(c.muts)-1 {
+			c.stopTimer()
+			c.rec.ChildDone()
+			c.rec = rec
+		}
 	}
 	c.stopTimer()
 }
 
+// capAddressSpace limits the address space to what the process has now plus extra
+// (a healthy case needs a few MiB): an allocation driven by a corrupt length ends the
+// child with "fatal error: out of memory" instead of eating the box.
+func capAddressSpace(extra uint64) {
+	var pages uint64
+	if b, err := os.ReadFile("/proc/self/statm"); err == nil {
+		fmt.Sscanf(string(b), "%d", &pages)
+	}
+	cur := pages * uint64(os.Getpagesize())
+	if cur == 0 {
+		cur = 3 << 30
+	}
+	lim := syscall.Rlimit{Cur: cur + extra, Max: cur + extra}
+	_ = syscall.Setrlimit(syscall.RLIMIT_AS, &lim)
+	debug.SetGCPercent(100)
+}
+
 // phase logs the case and (re)arms the in-child time budget.
 func (c *child) phase(i int, phase, op string) {
-	lc := loggedCase{c.k, i, c.muts[i].ID, phase, op}
-	kit.LogCase(lc)
+	lc := loggedCase{c.k, c.base + i, c.muts[i].ID, phase, op}
+	c.logCase(lc)
 	c.tmu.Lock()
 	c.cur = lc
 	c.tmu.Unlock()
 }
 
+// logCase is kit.LogCase with a descriptor that stays open: one pwrite of a padded
+// record per phase instead of open/write/close.
+func (c *child) logCase(lc loggedCase) {
+	if c.caseLog == nil {
+		p := os.Getenv("VERIF_CASELOG")
+		if p == "" {
+			return
+		}
+		f, err := os.OpenFile(p, os.O_CREATE|os.O_WRONLY|os.O_TRUNC, 0o644)
+		if err != nil {
+			kit.LogCase(lc)
+			return
+		}
+		c.caseLog = f
+	}
+	b, _ := json.Marshal(lc)
+	const width = 400
+	if len(b) < width {
+		b = append(b, strings.Repeat(" ", width-len(b))...)
+	}
+	c.caseLog.WriteAt(b, 0)
+}
+
+// heapAllocated: bytes of heap objects (live ones and garbage not yet swept). A loop
+// that keeps what it allocates makes it grow without bound; garbage churn does not.
+func heapAllocated() uint64 {
+	sm := []metrics.Sample{{Name: "/memory/classes/heap/objects:bytes"}}
+	metrics.Read(sm)
+	if sm[0].Value.Kind() == metrics.KindUint64 {
+		return sm[0].Value.Uint64()
+	}
+	return 0
+}
+
+// armTimer starts the budgets of a case.
 func (c *child) armTimer() {
 	c.tmu.Lock()
 	defer c.tmu.Unlock()
-	if c.timer != nil {
-		c.timer.Stop()
-	}
-	c.timer = time.AfterFunc(c.budget, c.giveUp)
+	c.armed, c.caseStart, c.cpuBase, c.allocBase = true, time.Now(), cpuTime(), heapAllocated()
 }
 
+// cpuTime is the CPU time (user + system) the process has used so far.
+func cpuTime() time.Duration {
+	var ru syscall.Rusage
+	if syscall.Getrusage(syscall.RUSAGE_SELF, &ru) != nil {
+		return 0
+	}
+	return time.Duration(ru.Utime.Nano() + ru.Stime.Nano())
+}
+
+// stopTimer ends a case; it reports what the finished case allocated.
 func (c *child) stopTimer() {
 	c.tmu.Lock()
 	defer c.tmu.Unlock()
-	if c.timer != nil {
-		c.timer.Stop()
+	if c.armed {
+		if h := heapAllocated(); h > c.allocBase {
+			c.rec.Max("max_heap_growth_kib_of_a_finished_case", int64((h-c.allocBase)>>10))
+		}
+		c.rec.Max("max_wall_ms_of_a_finished_case", time.Since(c.caseStart).Milliseconds())
+		c.rec.Max("max_cpu_ms_of_a_finished_case", (cpuTime() - c.cpuBase).Milliseconds())
+	}
+	c.armed = false
+}
+
+// monitor is the child's watchdog goroutine. A case that exceeds its time budget ends
+// the child with exitHang, one whose heap grows by more than its allocation budget (a
+// healthy case needs a few MiB; the shards are < 10 KB) with exitRunaway. The time
+// budget is CPU time of the process (a loop that does not end burns it whatever the
+// load of the box); ten times the budget in wall-clock time is the backstop for a
+// case that blocks without using the CPU.
+func (c *child) monitor() {
+	for {
+		time.Sleep(5 * time.Millisecond)
+		c.tmu.Lock()
+		armed, t0, cpu0, a0, lc := c.armed, c.caseStart, c.cpuBase, c.allocBase, c.cur
+		c.tmu.Unlock()
+		if !armed {
+			continue
+		}
+		if h := heapAllocated(); h > a0 && h-a0 > c.allocBudget {
+			c.giveUp(lc, exitRunaway, fmt.Sprintf("heap grew by %d MiB so far (budget %d MiB)", (h-a0)>>20, c.allocBudget>>20))
+		}
+		if used := cpuTime() - cpu0; used > c.budget {
+			c.giveUp(lc, exitHang, fmt.Sprintf("used %v of CPU time (budget %v)", used.Round(time.Millisecond), c.budget))
+		}
+		if time.Since(t0) > 10*c.budget {
+			c.giveUp(lc, exitHang, fmt.Sprintf("not finished after %v (10x the CPU budget of %v in wall-clock time)", time.Since(t0).Round(time.Millisecond), c.budget))
+		}
 	}
 }
 
-var zoektFrameRe = regexp.MustCompile(`(?m)^github\.com/sourcegraph/zoekt(/[^\s(]*\.[^\s]*?)\(`)
+var zoektFrameRe = regexp.MustCompile(`(?m)^github\.com/sourcegraph/zoekt/(\S+)\(`)
 
-// giveUp: the case exceeded its budget. Dump the goroutines (the parent takes the
-// stalled zoekt frame from it) and end the child with a status of its own.
-func (c *child) giveUp() {
-	c.tmu.Lock()
-	lc := c.cur
-	c.tmu.Unlock()
-	var sb strings.Builder
-	_ = pprof.Lookup("goroutine").WriteTo(&sb, 2)
-	site := "?"
-	for _, blk := range strings.Split(sb.String(), "\n\n") {
+var blockedStates = []string{"chan receive", "chan send", "select", "semacquire", "sync.", "IO wait", "sleep", "syscall", "finalizer wait", "GC worker", "force gc", "GC sweep wait", "GC scavenge wait", "trace reader", "debug call", "cleanup wait"}
+
+// stalledSites scores the zoekt frames on top of the goroutines that are not blocked in a
+// goroutine dump: the goroutine that is busy inside zoekt, preferably allocating.
+func stalledSites(dump string, votes map[string]int) {
+	for _, blk := range strings.Split(dump, "\n\n") {
 		head, _, _ := strings.Cut(blk, "\n")
-		if !strings.Contains(head, "[running]") && !strings.Contains(head, "[runnable]") {
+		blocked := false
+		for _, st := range blockedStates {
+			if strings.Contains(head, "["+st) {
+				blocked = true
+			}
+		}
+		if blocked || strings.Contains(blk, "(*child).giveUp") || strings.Contains(blk, "(*child).monitor") || strings.Contains(blk, "runtime.runFinalizers") || strings.Contains(blk, "runtime.runfinq") {
 			continue
 		}
-		if strings.Contains(blk, "giveUp") {
-			continue
-		}
+		lines := strings.Split(blk, "\n")
 		for _, m := range zoektFrameRe.FindAllStringSubmatch(blk, -1) {
-			if strings.Contains(m[1], "verifkit") || strings.Contains(m[1], "verifcheck") {
+			f := m[1]
+			if strings.Contains(f, "verifkit") || strings.Contains(f, "verifcheck") {
 				continue
 			}
-			site = strings.TrimPrefix(m[1], "/")
-			break
-		}
-		if site != "?" {
+			if i := strings.Index(f, "[...]"); i >= 0 {
+				f = f[:i]
+			}
+			score := 1
+			top := strings.Join(lines[:min(len(lines), 14)], "\n")
+			for _, a := range []string{"runtime.growslice", "runtime.mallocgc", "runtime.makeslice", "runtime.memmove", "runtime.memclr"} {
+				if strings.Contains(top, a) {
+					score = 3
+				}
+			}
+			if strings.Contains(top, m[0]) {
+				score++
+			}
+			votes[f] += score
 			break
 		}
 	}
-	fmt.Fprintf(os.Stderr, "\nC11-HANG case %d %s phase %s %s exceeded %v\nC11-HANG-SITE %s\n%s\n", lc.I, lc.ID, lc.Phase, lc.Op, c.budget, site, clip(sb.String(), 20000))
-	os.Exit(exitHang)
+}
+
+// giveUp dumps the goroutines (the parent takes the stalled zoekt frame from the
+// C11-SITE line) and ends the child with a status of its own.
+func (c *child) giveUp(lc loggedCase, status int, why string) {
+	pprof.StopCPUProfile()
+	votes := map[string]int{}
+	var first string
+	for i := 0; i < 3; i++ {
+		var sb strings.Builder
+		_ = pprof.Lookup("goroutine").WriteTo(&sb, 2)
+		stalledSites(sb.String(), votes)
+		if i == 0 {
+			first = sb.String()
+		}
+		time.Sleep(3 * time.Millisecond)
+	}
+	site, best := "?", 0
+	for f, n := range votes {
+		if n > best || (n == best && f < site) {
+			site, best = f, n
+		}
+	}
+	fmt.Fprintf(os.Stderr, "\nC11-GIVE-UP case %d %s phase %s %s: %s\nC11-SITE %s\n%s\n", lc.I, lc.ID, lc.Phase, lc.Op, why, site, clip(first, 20000))
+	os.Exit(status)
 }
 
 func (c *child) tellParent(r sideRec) {
@@ -613,7 +854,7 @@ func (c *child) oneCase(i int) {
 	m := &c.muts[i]
 	c.phase(i, "load", "direct")
 	c.armTimer()
-	dir, shard, err := c.caseDir(fmt.Sprintf("c%d", i), m)
+	dir, shard, err := c.caseDir(fmt.Sprintf("c%d", c.base+i), m)
 	if err != nil {
 		rec.Violation("harness/case dir", err.Error(), nil)
 		return
@@ -644,7 +885,7 @@ func (c *child) oneCase(i int) {
 		rec.Count("load_panicked", 1)
 		rec.Count("load_panicked_kind_"+m.Kind, 1)
 		rec.Count("cases_at "+sig, 1)
-		c.tellParent(sideRec{Type: "loadpanic", Sig: sig, Subj: c.k, I: i, ID: m.ID, Step: step, Msg: msg, Stack: stack})
+		c.tellParent(sideRec{Type: "loadpanic", Sig: sig, Subj: c.k, I: c.base + i, ID: m.ID, Step: step, Msg: msg, Stack: stack})
 		rec.Count("directory_searcher_not_started_after_loader_panic", 1)
 		return
 	case lerr != nil:
@@ -657,6 +898,13 @@ func (c *child) oneCase(i int) {
 		defer direct.Close()
 	}
 	loaded := direct != nil
+	if !loaded && c.rejectedEvery > 1 && (c.base+i)%c.rejectedEvery != 0 {
+		// quick tier: a rejected shard takes the same path through the loader every time
+		// (error logged, shard skipped); the directory searcher is started for a sample
+		rec.Count("rejected_cases_without_directory_searcher", 1)
+		c.stopTimer()
+		return
+	}
 
 	// 2. the directory searcher over healthy + corrupt
 	c.phase(i, "load", "search.NewDirectorySearcher")
@@ -680,7 +928,7 @@ func (c *child) oneCase(i int) {
 
 	// 3. the corrupt shard's own searcher
 	if loaded {
-		for _, o := range c.full {
+		for _, o := range c.directOps {
 			c.phase(i, "direct-"+o.Kind, o.Name)
 			var r opResult
 			msg, stack, p := kit.Guard(func() { r = c.run(direct, o) })
@@ -731,7 +979,7 @@ func (c *child) judge(i int, o op, r opResult, loaded bool) {
 		rec.Count("directory_ops_reporting_crashes", 1)
 	}
 	wit := func() map[string]any {
-		return map[string]any{"subject": c.s.Name, "subject_file": c.w.Subjects[c.k].File, "case_index": i, "corruption": describe(m, c.s.Bytes), "op": o.Name, "query": o.Q.String(),
+		return map[string]any{"subject": c.s.Name, "subject_file": c.w.Subjects[c.k].File, "case_index": c.base + i, "corruption": describe(m, c.s.Bytes), "op": o.Name, "query": o.Q.String(),
 			"corrupt_shard_loaded": loaded, "crashes_reported": r.Crashes, "subject_shard_b64": base64.StdEncoding.EncodeToString(c.s.Bytes)}
 	}
 	base := c.baseline[o.Name]
@@ -852,7 +1100,7 @@ func battery() (full, reduced []op) {
 	l("list unsupported field", &query.Const{Value: true}, &zoekt.ListOptions{Field: 1})
 	for _, o := range full {
 		switch o.Name {
-		case "content substring", "everything chunks", "list all, repos", "list by content, repos map":
+		case "content substring", "everything chunks", "list all, nil options", "list by content, repos map":
 			reduced = append(reduced, o)
 		}
 	}
